@@ -17,34 +17,45 @@ REQUIRED = ['C18.keyTransform_join', 'C18.keyTransform_too_deep', 'C18.cfgGet_eq
             'C18.cfgDel_eq_nested', 'C18.legacy_text_route_not_inverse', 'C18.legacy_dump_mutated_nested', 'C18.path_get_eq_nested', 'C18.path_set_eq_nested',
             'C18.path_del_eq_nested', 'C18.get_set_same', 'C18.get_set_other', 'C18.del_removes_only',
             'C18.del_keeps_parent', 'C18.set_missing_parent_errors', 'C18.toYamlSafe_idempotent',
-            'C18.toYamlSafe_arrayFree', 'C18.toYamlSafe_same_options', 'C18.roundtrip_file', 'C18.roundtrip_text',
+            'C18.toYamlSafe_arrayFree', 'C18.toYamlSafe_yamlSafe', 'C18.toYamlSafe_numpy_scalar', 'C18.toYamlSafe_same_options',
+            'C18.roundtrip_file', 'C18.roundtrip_text', 'C18.roundtrip_second_trip_identity',
+            'C18.numpy_scalar_not_loadable_before_fix',
             'C18.roundtrip_get_func', 'C18.dump_leaves_config_untouched', 'C18.default_config_is_signature_defaults',
             'C18.default_config_agrees_with_option_model']
 TRUSTED = ['PyYAML (dump / dump_all / load / load_all with FullLoader) is an oracle: assumed to satisfy load(dump(t)) = t on '
-           'array-free trees; validated on the real library on every run (stream yaml_codec)',
+           'trees without ndarrays and numpy scalars (yamlSafe); validated on the real library on every run (stream yaml_codec), '
+           'together with the refusal (ConstructorError) of trees that hold a numpy scalar, which the driver codec mirrors',
            'inspect.signature is an oracle: the live signatures are handed to the get_config model as tables',
            'error classes of str-indexing Python / numpy objects (TypeError, IndexError, ValueError) are part of the model '
            'and validated by the edit-sequence correspondence',
            'numerical behaviour of the sift variants is not modelled here: behavioural equality of config-driven and plain '
            'calls is decided by the instance check only (bit-identical outputs, seeded numpy RNG, nprocesses=1)']
-ASSUMPTIONS = ['yaml_roundtrip_safe_tree: yaml.load(yaml.dump(t)) == t (types included) for array-free option trees; '
-               'list(yaml.load_all(yaml.dump_all(ts))) == ts',
+ASSUMPTIONS = ['yaml_roundtrip_safe_tree: yaml.load(yaml.dump(t)) == t (types included) for option trees without ndarrays and '
+               'numpy scalars; list(yaml.load_all(yaml.dump_all(ts))) == ts',
                'no Python object is stored under two keys of one configuration (aliasing has no counterpart in the model)',
-               'option values are scalars, None, lists/tuples without arrays, arrays of scalars, and dicts of these',
+               'option values are Python or numpy scalars (np.float64/32/16, np.int64/32, np.uint8, np.bool_), None, lists/tuples '
+               'without arrays (numpy scalars allowed at any depth inside them), numeric arrays, and dicts of these; a numpy '
+               'scalar reads back as the Python scalar of the same value (np.float32(0.1) -> 0.10000000149011612)',
                'to_yaml_file / from_yaml_file format str(config) for their log line whatever the log level: a configuration whose '
                'imf_opts / envelope_opts / extrema_opts entry is not a dict raises AttributeError there (modelled as is; the '
                'round-trip theorems assume the three stage entries are dicts)']
 RULE = ('edit sequences: 3-12 (quick) / up to 40 (thorough) get/set/del operations with slash keys of depth 1-4 on the '
         'default configuration of a random variant or on a random nested dict; keys are mostly existing paths, plus new '
         'leaves, missing parents, non-dict parents (scalar, list, tuple, array) and too-deep keys; values are scalars, None, '
-        'lists, tuples, 1-D/2-D arrays, nested dicts. yaml: the same edited configurations through the file and the text '
+        'lists, tuples, 1-D/2-D arrays, nested dicts, numpy scalars (alone and inside lists/tuples/dicts). yaml: the same edited configurations through the file and the text '
         'route. foreign: hand-written YAML (one document, plain mapping, short/long lists). behaviour: 4 variants x signals x '
         'edited options x {unpack, get_func, file, text}. Non-trivial: an edit sequence that contains a successful depth>=2 '
         'write or delete and at least one raised error; a YAML case whose store holds a tuple or array below the top level.')
 
-LEGACY = 0      # 1 = model of the pinned (pre-D14-repair) code, used once to rediscover the defect
+LEGACY = 0      # 1 = model of the pinned (pre-D14-repair) code, 2 = model before the numpy-scalar repair (D38); each used
+                # once to rediscover the defect
 
 VARIANTS = ['sift', 'ensemble_sift', 'complete_ensemble_sift', 'mask_sift']
+
+
+def NP(t, v):
+    """JSON form of the numpy scalar np.<t>(v)"""
+    return {'$': 'np', 't': t, 'v': v}
 
 
 def sift_mod():
@@ -128,7 +139,7 @@ def gen_ops(rng, store, n):
         o = rng.choice(['get', 'get', 'set', 'set', 'set', 'del'])
         op = {'o': o, 'k': key}
         if o == 'set':
-            op['v'] = _cfg.rand_value(rng, 2, plain_only=False)
+            op['v'] = _cfg.rand_value(rng, 2, plain_only=False, np_scalars=0.5 if rng.random() < 0.3 else 0.0)
         ops.append(op)
         if len(key.split('/')) <= 3:
             apply_nested(store, op)
@@ -167,6 +178,17 @@ class Edits(Stream):
                 {'o': 'set', 'k': 'a/b/c', 'v': T()}, {'o': 'get', 'k': 'a'}, {'o': 'del', 'k': 'a'}, {'o': 'get', 'k': 'f'}]},
             {'init': {'store': D(('a/b', 1), ('a', D(('b', 2))))}, 'ops': [
                 {'o': 'get', 'k': 'a/b'}, {'o': 'set', 'k': 'a/b', 'v': 3}, {'o': 'del', 'k': 'a/b'}, {'o': 'get', 'k': 'a'}]},
+            # numpy scalars as option values and as (non-dict) parents: read back unchanged; get below one raises IndexError
+            # ("invalid index to scalar variable"), set / del below one TypeError
+            {'init': {'config': 'sift'}, 'ops': [
+                {'o': 'set', 'k': 'imf_opts/sd_thresh', 'v': NP('float64', 0.1)}, {'o': 'get', 'k': 'imf_opts/sd_thresh'},
+                {'o': 'set', 'k': 'max_imfs', 'v': NP('int64', 3)}, {'o': 'get', 'k': 'max_imfs/x'},
+                {'o': 'set', 'k': 'max_imfs/x', 'v': 1}, {'o': 'del', 'k': 'max_imfs/x'}, {'o': 'get', 'k': 'imf_opts/sd_thresh/x'},
+                {'o': 'set', 'k': 'imf_opts/sd_thresh/x', 'v': 1}, {'o': 'del', 'k': 'imf_opts/sd_thresh/x'},
+                {'o': 'set', 'k': 'extrema_opts/parabolic_extrema', 'v': NP('bool', True)},
+                {'o': 'get', 'k': 'extrema_opts/parabolic_extrema/x'}, {'o': 'del', 'k': 'extrema_opts/parabolic_extrema/x'},
+                {'o': 'set', 'k': 'imf_opts/rilling_thresh', 'v': T(NP('float64', 0.05), 0.5, NP('float32', 0.05))},
+                {'o': 'get', 'k': 'imf_opts'}]},
         ]
 
     def generate(self, rng, tier):
@@ -361,7 +383,7 @@ def gen_plain_sets(rng, store, n):
         p = rng.choice(paths) if paths and rng.random() < 0.7 else (rng.choice(paths + [()])[:2] + (rng.choice(['new', 'x', 'k']),))
         if len(p) >= 2 and not isinstance(_get(store, p[:-1]), dict):
             p = p[:1]
-        v = _cfg.rand_value(rng, 2, plain_only=True)
+        v = _cfg.rand_value(rng, 2, plain_only=True, np_scalars=0.5 if rng.random() < 0.35 else 0.0)
         if len(p) == 1 and p[0] in ('imf_opts', 'envelope_opts', 'extrema_opts') and not (isinstance(v, dict) and v['$'] == 'dict'):
             if rng.random() < 0.85:      # mostly keep the stage entries dictionaries (str(config) needs them)
                 p = p + ('x',) if isinstance(store.get(p[0]), dict) else ('x',)
@@ -399,6 +421,16 @@ class YamlRoutes(Stream):
             out.append({'init': {'name': 'my sift: type', 'store': D()}, 'ops': [], 'route': route})
             inner = D(('d', T(1, T(2))), ('e', A(1, 2)))
             out.append({'init': {'name': 'sift', 'store': D(('a', D(('b', D(('c', inner))))))}, 'ops': [], 'route': route})
+            # D38 witnesses: a numpy scalar as an option value (values computed with numpy; np.float64 is a float subclass)
+            out.append({'init': {'config': 'sift'}, 'route': route, 'ops': [
+                {'o': 'set', 'k': 'imf_opts/sd_thresh', 'v': NP('float64', 0.1)}]})
+            out.append({'init': {'config': 'sift'}, 'route': route, 'ops': [{'o': 'set', 'k': 'max_imfs', 'v': NP('int64', 3)}]})
+            out.append({'init': {'config': 'mask_sift'}, 'route': route, 'ops': [
+                {'o': 'set', 'k': 'imf_opts/rilling_thresh', 'v': T(NP('float64', 0.05), 0.5, NP('float32', 0.05))},
+                {'o': 'set', 'k': 'mask_amp', 'v': [NP('float32', 1.0), 0.5, [NP('int32', 2), T(NP('uint8', 1))]]},
+                {'o': 'set', 'k': 'extrema_opts/parabolic_extrema', 'v': NP('bool', True)},
+                {'o': 'set', 'k': 'extrema_opts/mag_pad_opts/stat_length', 'v': NP('int64', 2)},
+                {'o': 'set', 'k': 'extrema_opts/loc_pad_opts', 'v': D(('mode', 'reflect'), ('k', [D(('j', NP('float16', 0.5)))]))}]})
         return out
 
     def generate(self, rng, tier):
@@ -510,6 +542,8 @@ class YamlRoutes(Stream):
                 t.append('array-at-top')
             if any(isinstance(x, (tuple, np.ndarray)) for d in nested for x in _leaves(d)):
                 t.append('tuple-or-array-nested')
+            if 'J' in [tok[:1] for tok in out['before'].split(',')]:
+                t.append('numpy-scalar')
             t.append('empty-store' if not o else 'nonempty-store')
         return t
 
@@ -537,15 +571,33 @@ class YamlCodec(Stream):
     def corpus(self):
         return [{'docs': [{'$': 'dict', 'v': [['a', {'$': 'tuple', 'v': [1, 2.0, True, None, '1', 'null', '']}],
                                                ['b', [1e-8, 1e-300, 2.5e10, -0.0, [[], {'$': 'tuple', 'v': []}]]],
-                                               ['', {'$': 'dict', 'v': []}], ['x: y', '- z']]}]}]
+                                               ['', {'$': 'dict', 'v': []}], ['x: y', '- z']]}]}] + \
+            [{'docs': [d], 'refused': True} for d in (NP('float64', 0.1), NP('float32', 0.5), NP('int64', 3), NP('uint8', 3),
+                                                      NP('bool', True), [1, {'$': 'tuple', 'v': [NP('float16', 0.5)]}])]
 
     def generate(self, rng, tier):
         for i in range(1500 if tier == 'thorough' else 150):
             yield {'docs': [_strip_arrays(_cfg.rand_value(rng, 3, plain_only=True)) for _ in range(rng.randint(1, 3))]}
+        for i in range(300 if tier == 'thorough' else 40):
+            # the refusal the driver codec mirrors: a document holding a numpy scalar is dumped but not loaded
+            d = _strip_arrays(_cfg.rand_value(rng, 2, plain_only=True, np_scalars=0.6))
+            if _has_np(d):
+                yield {'docs': [d], 'refused': True}
 
     def impl(self, case):
         import yaml
         docs = [_cfg.build(d) for d in case['docs']]
+        if case.get('refused'):
+            res = []
+            for f in (lambda: yaml.load(yaml.dump(docs[0], sort_keys=False), Loader=yaml.FullLoader),
+                      lambda: yaml.load(yaml.dump([{'sift_type': 'sift'}, {'k': docs[0]}], sort_keys=False), Loader=yaml.FullLoader),
+                      lambda: list(yaml.load_all(yaml.dump_all([{'a': 1}, {'k': docs[0]}], sort_keys=False), Loader=yaml.FullLoader))):
+                try:
+                    f()
+                    res.append('loaded')
+                except Exception as e:  # noqa
+                    res.append(type(e).__name__)
+            return {'refusal': res}
         one = [_cfg.safe_wire(yaml.load(yaml.dump(d, sort_keys=False), Loader=yaml.FullLoader)) for d in docs]
         lst = _cfg.safe_wire(yaml.load(yaml.dump(docs, sort_keys=False), Loader=yaml.FullLoader))
         many = _cfg.safe_wire(list(yaml.load_all(yaml.dump_all(docs, sort_keys=False), Loader=yaml.FullLoader)))
@@ -554,6 +606,10 @@ class YamlCodec(Stream):
     def holds(self, case, out):
         if isinstance(out, ImplError):
             return [Failure('assumption:yaml_roundtrip_safe_tree:raises:' + out['error'], out['msg'])]
+        if case.get('refused'):
+            if out['refusal'] != ['ConstructorError'] * 3:
+                return [Failure('assumption:yaml_refuses_numpy_scalar', '%s -> %s' % (case['docs'], out['refusal']))]
+            return []
         docs = [_cfg.build(d) for d in case['docs']]
         exp = [_cfg.wire(d) for d in docs]
         if out['one'] != exp or out['list'] != _cfg.wire(docs) or out['many'] != _cfg.wire(docs):
@@ -561,7 +617,19 @@ class YamlCodec(Stream):
         return []
 
     def tags(self, case, out):
-        return ['ndocs=%d' % len(case['docs'])]
+        return ['ndocs=%d' % len(case['docs'])] + (['refused-numpy-scalar'] if case.get('refused') else [])
+
+
+def _has_np(j):
+    if isinstance(j, dict):
+        if j['$'] == 'np':
+            return True
+        if j['$'] == 'dict':
+            return any(_has_np(v) for _, v in j['v'])
+        return any(_has_np(x) for x in j['v'])
+    if isinstance(j, list):
+        return any(_has_np(x) for x in j)
+    return False
 
 
 def _strip_arrays(j):
@@ -570,6 +638,8 @@ def _strip_arrays(j):
             return j['v']
         if j['$'] == 'tuple':
             return {'$': 'tuple', 'v': [_strip_arrays(x) for x in j['v']]}
+        if j['$'] == 'np':
+            return j
         return {'$': 'dict', 'v': [[k, _strip_arrays(v)] for k, v in j['v']]}
     if isinstance(j, list):
         return [_strip_arrays(x) for x in j]
@@ -792,6 +862,11 @@ BEHAVIOUR_EDITS = {
         [{'k': 'extrema_opts/parabolic_extrema', 'v': True}], [{'k': 'max_imfs', 'v': 2}],
         [{'k': 'extrema_opts/mag_pad_opts', 'v': {'$': 'dict', 'v': [['mode', 'mean'], ['stat_length', {'$': 'tuple', 'v': [2, 2]}]]}}],
         [{'k': 'extrema_opts/loc_pad_opts/reflect_type', 'v': 'odd'}, {'k': 'sift_thresh', 'v': 1e-6}],
+        # values computed with numpy (D38): the loaded configuration must still behave like the edited one
+        [{'k': 'imf_opts/sd_thresh', 'v': NP('float64', 0.05)}, {'k': 'max_imfs', 'v': NP('int64', 3)}],
+        [{'k': 'imf_opts/stop_method', 'v': 'rilling'},
+         {'k': 'imf_opts/rilling_thresh', 'v': {'$': 'tuple', 'v': [NP('float64', 0.1), 0.6, NP('float32', 0.125)]}}],
+        [{'k': 'extrema_opts/parabolic_extrema', 'v': NP('bool', True)}, {'k': 'extrema_opts/pad_width', 'v': NP('int32', 3)}],
     ],
     'mask_sift': [
         [{'k': 'mask_freqs', 'v': {'$': 'array', 'v': [0.25, 0.12, 0.05, 0.02]}}, {'k': 'mask_amp_mode', 'v': 'ratio_sig'}],
@@ -815,6 +890,8 @@ class Behaviour(Stream):
             out.append({'variant': v, 'signal': {'family': 'tones', 'n': 128, 'seed': 3}, 'edits': [], 'seed': 11})
         out.append({'variant': 'sift', 'signal': {'family': 'chirp', 'n': 96, 'seed': 4}, 'seed': 5,
                     'edits': [{'k': 'imf_opts/stop_method', 'v': 'rilling'}]})
+        out.append({'variant': 'sift', 'signal': {'family': 'tones', 'n': 128, 'seed': 3}, 'seed': 11,
+                    'edits': [{'k': 'imf_opts/sd_thresh', 'v': NP('float64', 0.05)}, {'k': 'max_imfs', 'v': NP('int64', 3)}]})
         return out
 
     def generate(self, rng, tier):
